@@ -242,6 +242,9 @@ func H_Load() {
 			vObs("tid.seccomp", uint64(s.tid))
 			vKnownThread(r.tid, s.tid)
 			vAssert(r.tid == s.tid, "C11.thread")
+			// the bit is really set (prctl succeeded) whenever a filter gets installed
+			att := vAnd(vAnd(s.a[0] == kSetModeFilter, s.errno == 0), s.r1 == 0)
+			vAssert(vImplies(att, vAnd(r.errno == 0, r.r1 == 0)), "C11.bit_set_before_install")
 			vCover("cover.prctl_then_seccomp")
 		} else {
 			// prctl failed: no install attempted, error reported
